@@ -271,7 +271,7 @@ def merge(O, N, path=(), strict_domain=False):
         was_composed = child.composed()
         r = merge(child, v, path + (k,), strict_domain)
         if was_composed:
-            if r.falsy() and not (r.prio > v.prio) and v.xdel:
+            if r.falsy() and not (r.prio > v.prio) and v.xdel and v is not child:      # (a node emptied by !clear meets itself: it stays, empty)
                 gone.append(kk)
             else:
                 _set(O, kk, r)
